@@ -91,3 +91,25 @@ func VxH06run() {
 	vxAssert(vxInvCount() == n, "C06.all-tasks-ran")
 	vxAssert(len(wf.concurrentTasks) == 0, "C06.all-slots-returned")
 }
+
+// VxH07proc: k ready tasks of ONE process (real Workflow.Run / Process.Run) on a workflow
+// with max >= k slots; the commands are rendezvous commands (each waits until k commands
+// have started). Completion proves that the k tasks really executed simultaneously,
+// whatever the port buffer size is.
+func VxH07proc() {
+	k := vxGet("k")
+	buf := vxConcrete(vxInt("bufsize", 1, 3))
+	extra := vxConcrete(vxInt("extraslots", 0, 1))
+	vxSetEnv("SCIPIPE_BUFSIZE", string(rune('0'+buf)))
+	vxCmdFree(false, false)
+	wf := newWorkflowWithoutLogging("w", k+extra)
+	p := NewProc(wf, "p", "vcmd b:"+string(rune('0'+k))+" w:{o:out} n:{p:x}")
+	p.SetOut("out", "o{p:x}.txt")
+	vals := []string{"1", "2", "3", "4"}[:k]
+	p.InParam("x").FromStr(vals...)
+	vxPreemptBudget(vxGet("preempt"))
+	kind := vxRun(func() { wf.Run() })
+	vxReach("ran")
+	vxAssert(kind == "returned", "C07.k-fitting-tasks-of-one-process-run-simultaneously")
+	vxAssert(vxInvCount() == k, "C07.every-task-ran-once")
+}
